@@ -18,7 +18,7 @@ use digest::{
 };
 
 pub mod verif {
-    pub const MAX_MSG: usize = 48;
+    pub const MAX_MSG: usize = 96;
     pub const MAX_DIGESTS: usize = 4;
     pub struct Log {
         pub n: usize,
